@@ -14,7 +14,14 @@ SYMS = ('BTC-USDT', 'ETH-USDT')
 REL = 1e-9
 
 
+EXACT_BINARY = [False]
+
+
 def fr(x):
+    # the number a float stands for: its decimal reading (0.1 means one tenth) - or, in the full-precision configuration, the
+    # binary value itself (q / 2 means exactly half of q)
+    if EXACT_BINARY[0]:
+        return F(float(x))
     return F(Decimal(str(float(x))))
 
 
@@ -122,6 +129,7 @@ class FutSys:
         from .. import acct
         self.acct = acct
         self.cfg = cfg
+        EXACT_BINARY[0] = bool(cfg.get('exact_binary'))
         self.syms = SYMS[:cfg['nsym']]
         self.P = cfg['P']
         self.u = cfg['u']
@@ -255,6 +263,8 @@ class FutSys:
     def check(self):
         ex, ref = self.ex, self.ref
         sig = {k: True for k in sorted(ref.flags) if k != 'flip'}
+        if self.cfg.get('exact_binary'):
+            sig['full_precision_quantities'] = True
         if not near(ex.wallet_balance, ref.w):
             self.problems.append(('wallet', sig, 'wallet %r, model %r' % (ex.wallet_balance, float(ref.w))))
         for s in self.syms:
@@ -296,6 +306,10 @@ def configs(ctx):
             'marks': [0.95], 'probe': False}
     two = {'balance': bal / 2, 'nsym': 2, 'P': P, 'u': u, 'max_live': 2, 'prices': [0.9, 'M'], 'qtys': [1.0],
            'marks': [1.05], 'probe': False}
+    # full-precision quantities (a size computed from balance and price, and exact halves of it): the reference reads them as
+    # the binary numbers they are
+    fp = dict(lean, L=3, fee=0.0, qtys=[1.1254924029262803, 1.1254924029262803 / 2], prices=['M'], marks=[], exact_binary=True)
+    out.append((fp, 4 if ctx.quick else 5))
     if ctx.quick:
         out.append((dict(rich, L=2, fee=0.001), 4))
         out.append((dict(lean, L=10, fee=0.001), 5))
